@@ -522,6 +522,11 @@ var lexLines = []string{
 	"kw_if: /if/ (class)",
 	"invalid_token:",
 	"ident2: /[a-z]+/ -1",
+	"invalid_token: /x/ (space)",
+	"eoi: /\\x00/ (space)",
+	"error: /e/ (space)",
+	"ws: /[ \\t]*/ (space)",
+	"idx: /{letter}+/",
 }
 
 var parseLines = []string{
@@ -544,6 +549,8 @@ var parseLines = []string{
 	"set1: set(ident | num)+ ;",
 	"/* π😀 */ item3: /* ж */ ident /* → */ num ;",
 	"'π' : ;",
+	"optuser: item itemopt ident identopt exprmain expropt ;",
+	"exprmain: expr expropt ;",
 	"bad1: ident '😀😀z' num ;",
 	"bad2: \"é😀\" '𝒳' ident ;",
 	"/* 日本 */ bad3: '😀' '😀😀' ;",
